@@ -274,6 +274,14 @@ func Read(r parser.ReadSeekSizer) (*Font, error) {
 		})
 	}
 
+	// Subroutine calls can be nested, so that a small font can expand to a
+	// huge amount of path data.  Limit the amount of subroutine code executed
+	// to a multiple of the size of the font data.
+	budget := int64(1<<18) + 16*p.Size()
+	for _, info := range decoders {
+		info.budget = &budget
+	}
+
 	cff.Glyphs = make([]*Glyph, nGlyphs)
 	fdSelect := cff.FDSelect
 	for gid, code := range charStrings {
